@@ -36,6 +36,11 @@ fn verif_seed(args: &[String]) -> u64 {
 
 fn main() {
     let args: Vec<String> = std::env::args().collect();
+    // the supervisor (`check`) runs no case itself; every process that does gets the harness CA as its system store
+    let runs_cases = matches!(args.get(1).map(|s| s.as_str()), Some("worker") | Some("one") | Some("replay") | Some("selftest"));
+    if runs_cases {
+        estab::init_system_trust();
+    }
     let code = match args.get(1).map(|s| s.as_str()) {
         Some("check") => cmd_check(&args),
         Some("worker") => cmd_worker(&args),
@@ -47,6 +52,9 @@ fn main() {
             2
         }
     };
+    if runs_cases {
+        estab::drop_system_trust();
+    }
     std::process::exit(code);
 }
 
@@ -239,7 +247,7 @@ fn cmd_check(args: &[String]) -> i32 {
         return 2;
     }
     std::env::set_var("LDAPSIM_TIER", tier);
-    println!("VERIF_SEED={seed} property={prop} tier={tier} workers={workers}");
+    println!("VERIF_SEED={seed} property={prop} tier={tier} workers={workers} tls-backend={}", estab::BACKEND);
     let t0 = Instant::now();
     let known = batch::load_known();
     let mut lane_out = vec![];
@@ -310,7 +318,7 @@ fn cmd_check(args: &[String]) -> i32 {
     let evidence = build_evidence(&prop, tier, seed, wall, &lane_out, &known_seen, new_viol.len());
     let dir = std::env::var("VERIF_EVIDENCE_DIR").unwrap_or_else(|_| format!("{}/evidence", batch::VERIF_ROOT));
     let _ = std::fs::create_dir_all(&dir);
-    let path = format!("{dir}/{prop}.json");
+    let path = if cfg!(feature = "rustls-backend") { format!("{dir}/{prop}.rustls.json") } else { format!("{dir}/{prop}.json") };
     if let Err(e) = std::fs::write(&path, serde_json::to_string_pretty(&evidence).unwrap()) {
         harness_errors.push(format!("cannot write {path}: {e}"));
     }
@@ -414,7 +422,8 @@ fn build_evidence(
             "components": {
                 "real": ["ldap3 (driver loop, handles, streams, adapters, codec, controls)", "lber", "tokio::sync", "tokio::time (paused clock)", "tokio_util::codec::Framed", "bytes", "nom"],
                 "stub": ["transport (SimIo)", "network (chunking, delays)", "LDAP server (scripted, own BER codec)", "executor / scheduler"],
-                "lanes_on_real_transports": "lanes ESTABURL, ESTABTLS and REALIO (where a property has them) run the real with_settings / ConnType dispatch over kernel loopback and Unix sockets, mio and OpenSSL through native-tls; there only the peer (a scripted thread) and - in the establishment lanes - the clock are simulated"
+                "lanes_on_real_transports": "lanes ESTABURL, ESTABTLS and REALIO (where a property has them) run the real with_settings / ConnType dispatch over kernel loopback and Unix sockets, mio and the TLS backend this binary was built with; there only the peer (a scripted thread, OpenSSL on its side) and - in the establishment lanes - the clock are simulated",
+                "tls_backend_of_ldap3": estab::BACKEND
             }
         },
         "assumptions": [
